@@ -656,74 +656,126 @@ func c05FillLevel(c *Ctx, p *Prog) {
 // channel that keeps a tick across Stop.  Reset on a timer whose tick was not
 // drained delivers that old tick as if the new period had elapsed.
 func checkTimerDiscipline(c *Ctx, p *Prog, rule string) {
+	// a Stop whose "already fired" answer leads to a receive on the timer's channel
+	drained := func(st *ssa.Call) bool {
+		for _, r := range referrers(st) {
+			var iff *ssa.If
+			neg := false
+			switch x := r.(type) {
+			case *ssa.If:
+				iff = x
+			case *ssa.UnOp:
+				if x.Op == token.NOT {
+					for _, r2 := range referrers(x) {
+						if i2, ok := r2.(*ssa.If); ok {
+							iff, neg = i2, true
+						}
+					}
+				}
+			}
+			if iff == nil {
+				continue
+			}
+			falseSucc := iff.Block().Succs[1]
+			if neg {
+				falseSucc = iff.Block().Succs[0]
+			}
+			for _, in2 := range falseSucc.Instrs {
+				switch y := in2.(type) {
+				case *ssa.Select:
+					for _, s := range y.States {
+						if s.Dir == types.RecvOnly && strings.HasSuffix(valName(s.Chan), ".C") {
+							return true
+						}
+					}
+				case *ssa.UnOp:
+					if y.Op == token.ARROW && strings.HasSuffix(valName(y.X), ".C") {
+						return true
+					}
+				}
+			}
+		}
+		return false
+	}
+	timerOf := func(call *ssa.Call) string {
+		n := valName(call.Call.Args[0])
+		// t.keytimer in a method and in its helper are the same field of the same receiver
+		if i := strings.LastIndex(n, "."); i >= 0 {
+			return n[i+1:]
+		}
+		return n
+	}
+	stopsIn := func(fn *ssa.Function) []*ssa.Call {
+		var out []*ssa.Call
+		eachInstr(fn, func(in ssa.Instruction) {
+			if call, ok := in.(*ssa.Call); ok && calleeName(&call.Call) == "(*time.Timer).Stop" {
+				out = append(out, call)
+			}
+		})
+		return out
+	}
+	// helpers that stop and drain a timer on every path: one drained Stop that dominates every return
+	stopHelper := map[*ssa.Function]string{}
+	for _, fn := range p.modFns {
+		if fn.Pkg != p.Tcell {
+			continue
+		}
+		sts := stopsIn(fn)
+		if len(sts) != 1 || !drained(sts[0]) {
+			continue
+		}
+		all := true
+		for _, r := range returnsOf(fn) {
+			if !instrDominates(sts[0], r) {
+				all = false
+			}
+		}
+		hasReset := false
+		eachInstr(fn, func(in ssa.Instruction) {
+			if call, ok := in.(*ssa.Call); ok && calleeName(&call.Call) == "(*time.Timer).Reset" {
+				hasReset = true
+			}
+		})
+		if all && !hasReset {
+			stopHelper[fn] = timerOf(sts[0])
+		}
+	}
 	n := 0
 	for _, fn := range p.modFns {
 		if fn.Pkg != p.Tcell {
 			continue
 		}
-		var stops []*ssa.Call
-		eachInstr(fn, func(in ssa.Instruction) {
-			if call, ok := in.(*ssa.Call); ok && calleeName(&call.Call) == "(*time.Timer).Stop" {
-				stops = append(stops, call)
-			}
-		})
+		stops := stopsIn(fn)
 		eachInstr(fn, func(in ssa.Instruction) {
 			call, ok := in.(*ssa.Call)
 			if !ok || calleeName(&call.Call) != "(*time.Timer).Reset" {
 				return
 			}
 			n++
-			tm := valName(call.Call.Args[0])
+			tm := timerOf(call)
 			key := fmt.Sprintf("%s:timer-reset#%d", fn.Name(), n)
 			ok2, detail := false, "no Stop of the same timer dominates the Reset"
 			for _, st := range stops {
-				if valName(st.Call.Args[0]) != tm || !instrDominates(st, call) {
+				if timerOf(st) != tm || !instrDominates(st, call) {
 					continue
 				}
-				// the false result of Stop must lead to a receive on the timer's channel
-				drained := false
-				for _, r := range referrers(st) {
-					var iff *ssa.If
-					neg := false
-					switch x := r.(type) {
-					case *ssa.If:
-						iff = x
-					case *ssa.UnOp:
-						if x.Op == token.NOT {
-							for _, r2 := range referrers(x) {
-								if i2, ok := r2.(*ssa.If); ok {
-									iff, neg = i2, true
-								}
-							}
-						}
-					}
-					if iff == nil {
-						continue
-					}
-					falseSucc := iff.Block().Succs[1]
-					if neg {
-						falseSucc = iff.Block().Succs[0]
-					}
-					for _, in2 := range falseSucc.Instrs {
-						switch y := in2.(type) {
-						case *ssa.Select:
-							for _, s := range y.States {
-								if s.Dir == types.RecvOnly && strings.HasSuffix(valName(s.Chan), ".C") {
-									drained = true
-								}
-							}
-						case *ssa.UnOp:
-							if y.Op == token.ARROW && strings.HasSuffix(valName(y.X), ".C") {
-								drained = true
-							}
-						}
-					}
-				}
-				if drained {
+				if drained(st) {
 					ok2, detail = true, "Stop at "+p.pos(st.Pos())+", its 'already fired' answer drains the channel"
 				} else {
 					detail = "Stop at " + p.pos(st.Pos()) + " ignores its result: a tick that already fired stays in the channel"
 				}
+			}
+			if !ok2 {
+				// through a helper that stops and drains
+				eachInstr(fn, func(in2 ssa.Instruction) {
+					cc := callCommon(in2)
+					if cc == nil {
+						return
+					}
+					if h := cc.StaticCallee(); h != nil && stopHelper[h] == tm && instrDominates(in2, call) {
+						ok2, detail = true, "stopped and drained by "+h.Name()+" (called at "+p.pos(in2.Pos())+")"
+					}
+				})
 			}
 			c.Check(ok2, rule, key, p.pos(call.Pos()), detail)
 			// whatever is left in the buffer gets a deadline: the re-arm depends on the buffer being
